@@ -96,6 +96,9 @@ func (m *model) compute(name string) ([]byte, bool) {
 type chunked struct{ hash.Hash }
 
 func (c chunked) Write(p []byte) (int, error) {
+	if len(p) == 0 {
+		return 0, nil // writing nothing changes nothing: the model does not even call the hash
+	}
 	bs := c.Hash.BlockSize()
 	field := c.Hash.Size() == bs && bs >= 32 && bs <= 96 // one field element in, one out
 	switch {
@@ -327,6 +330,9 @@ func main() {
 		return v
 	}
 	mimcVal := func(ctr int) []byte {
+		if ctr%7 == 3 {
+			return []byte{} // an empty value: absorbed as nothing
+		}
 		if ctr%5 == 1 { // a short value (MiMC pads each Write shorter than a block on its own)
 			return []byte{byte(1 + ctr%200), byte(ctr % 7)}[:1+ctr%2]
 		}
@@ -372,7 +378,7 @@ func main() {
 	mimcBadLE := func(ctr int) []byte { return rev(mimcBad(ctr)) }
 	cfgs := []hcfg{
 		{"sha256", sha256.New, []string{"alpha", "beta", "gamma", "delta"}, shaVal, nil},
-		{"mimc", func() hash.Hash { return mimc.NewMiMC() }, []string{"a", "bb", "gamma", "d"}, mimcVal, mimcBad},
+		{"mimc", func() hash.Hash { return mimc.NewMiMC() }, []string{"a", "bb", "gamma", strings.Repeat("n", 40)}, mimcVal, mimcBad}, // the 4th name is refused by MiMC (40 bytes: not a whole number of blocks)
 		{"mimc-le", func() hash.Hash { return mimc.NewMiMC(mimc.WithByteOrder(fr.LittleEndian)) }, []string{"a" + strings.Repeat("-", 30) + " ", "b" + strings.Repeat("-", 30) + " ", "c" + strings.Repeat("-", 30) + " ", "bb"}, mimcValLE, mimcBadLE}, // 32 printable bytes, last one < 0x30: canonical in little endian
 	}
 	maxLen := map[string]int{"sha256": c.Pick(6, 7), "mimc": c.Pick(4, 5), "mimc-le": c.Pick(3, 4)}
@@ -389,6 +395,9 @@ func main() {
 	} {
 		bs := o.newH().BlockSize()
 		val := func(ctr int) []byte {
+			if ctr%7 == 3 {
+				return []byte{}
+			}
 			if ctr%5 == 1 {
 				return []byte{byte(1 + ctr%200), byte(ctr % 7)}[:1+ctr%2]
 			}
